@@ -649,3 +649,70 @@ def empty_all_types(u: Unit):
             u.oblige(p, f"empty.pixel_kept_when_not_reset[{kind}]", z3.Implies(z3.Not(z3.Bool("reset")), z3.And(present == p.ex.hold["pixel_present"],
                                                                                                       z3.Implies(present, pe == p.ex.hold["pixel"]))), w, EMPTY_REPLAY)
         u.cover(f"empty.cover[{kind}]", ps, lambda p: p.kind == "return")
+
+
+# ---- the pixel reset in IEEE arithmetic: zero afterwards WHATEVER the bucket held (NaN, infinities, any dtype a pixel bucket may hold) -------
+PIXRESET_REPLAY = lambda w: {"code": """
+import numpy as np, verif_probes as VP
+VIOLATED, DETAIL = False, 'after a reset the pixel bucket is all zero, a float64 array of the detector shape, whatever it held'
+for dt in (np.float64, np.float32, np.float16):
+    for fill in (7.0, np.nan, np.inf, -np.inf, 6e4):
+        det = VP.detector(rows=2, cols=3)
+        a = np.full((2, 3), fill, dtype=dt); a[0, 0] = 1.0
+        det.pixel.array = a
+        det.empty(reset=True)
+        out = np.asarray(det.pixel.array)
+        if out.shape != (2, 3) or not np.array_equal(out, np.zeros((2, 3))):
+            VIOLATED, DETAIL = True, f'pixel bucket of {np.dtype(dt).name} holding {fill}: after Detector.empty(reset=True) it holds {out.ravel()[:3]}'; break
+    if VIOLATED: break
+if not VIOLATED:
+    det = VP.detector(rows=2, cols=3); ro = np.broadcast_to(np.array([[5.0]]), (2, 3))
+    det.pixel._array = ro                      # a valid array the bucket cannot write into
+    try:
+        det.empty(reset=True)
+    except Exception as e:
+        VIOLATED, DETAIL = True, f'reset of a bucket holding a read-only array raises {type(e).__name__}'
+    if not VIOLATED and not np.array_equal(np.asarray(det.pixel.array), np.zeros((2, 3))):
+        VIOLATED, DETAIL = True, 'reset of a bucket holding a read-only array leaves the old frame'
+""", "expect": "Detector.empty(reset=True) leaves an all-zero pixel bucket for every previous content"}
+
+
+@unit("C02", "empty.pixel_reset_ieee")
+def pixel_reset_ieee(u: Unit):
+    """Pixel.empty in IEEE binary64 arithmetic (float mode `fp`): the bucket holds ARBITRARY binary64 values beforehand — NaN and the
+    infinities included (a model may leave them) — or nothing; afterwards the element at an arbitrary position is +0.0 or -0.0 ... no:
+    exactly zero (fpIsZero), the shape is the detector's and the type binary64. Real-number reasoning cannot see this (x * 0 = 0 there)."""
+    fi = u.fn("pyxel/data_structure/pixel.py::Pixel.empty")
+    pci = u.cls("pyxel/data_structure/pixel.py::Pixel")
+    for pre in ("full", "empty"):
+        cfg = Cfg("fp")
+        F = z3.Function("pixel_before_fp", z3.IntSort(), z3.IntSort(), z3.Float64())
+
+        def setup(ex, pre=pre):
+            ex.st.assume(z3.And(D.ROWS > 0, D.COLS > 0))
+            arr = ex.st.alloc(HArr((D.ROWS, D.COLS), VDtype("float64"), lambda ix: VFloat(F(z_int(ix[0]), z_int(ix[1]))))) if pre == "full" else NONE
+            me = ex.st.alloc(HObj(pci, {"_array": arr, "_shape": VTuple([VInt(D.ROWS), VInt(D.COLS)]), "_numbytes": VInt(0)}))
+            ex.me = me
+            return [me], {}
+        ps = u.paths(fi, setup, cfg, label=f"Pixel.empty[{pre}, IEEE]")
+        for p in ps:
+            if p.kind != "return":
+                u.oblige(p, f"empty.pixel_reset_ieee[{pre}].returns", False, {"exc": p.exc_name()}, PIXRESET_REPLAY)
+                continue
+            a = p.st.cell(p.ex.me).fields.get("_array")
+            if not p.ex.is_arr(a):
+                u.oblige(p, f"empty.pixel_reset_ieee[{pre}].zero_whatever_it_held", False, {"stored": repr(a)}, PIXRESET_REPLAY)
+                continue
+            c = p.st.cell(a)
+            g = (D.GEN[0], D.GEN[1])
+            e = c.elem(g)
+            if is_conc(e.v):
+                goal = zb(float(e.v) == 0.0)
+            elif is_fp(e.v):
+                goal = z3.fpIsZero(e.v)
+            else:
+                goal = to_real(e) == 0
+            inr = z3.And(g[0] >= 0, g[0] < D.ROWS, g[1] >= 0, g[1] < D.COLS)
+            u.oblige(p, f"empty.pixel_reset_ieee[{pre}].zero_whatever_it_held", z3.Implies(inr, z3.And(goal, z_int(c.shape[0]) == D.ROWS, z_int(c.shape[1]) == D.COLS)),
+                     {"previous value": F(g[0], g[1]) if pre == "full" else "none"}, PIXRESET_REPLAY)
+        u.cover(f"empty.pixel_reset_ieee.cover[{pre}]", ps, lambda p: p.kind == "return")
